@@ -1,6 +1,8 @@
 ENGINES = [
     {"name": "E1/E2 tree driver", "path": "drivers/tree_driver.cpp", "serves_properties": ["C01", "C02", "C06", "C07", "C08", "C16"],
      "kind_free_text": "bounded-exhaustive enumeration of leaf-occupancy patterns x motifs x boxes x block sizes x grouping modes on the real tree and sequential executor, exact integer verification kernel and reference geometry as oracle, crash-safe supervisor"},
+    {"name": "E3 schedule explorer", "path": "harness/sched/ + drivers/sched_driver.cpp", "serves_properties": ["C03"],
+     "kind_free_text": "mock task runtime (GOMP ABI) + stateless explorer with state cache over (tasks created, tasks executed); real executor re-run on fresh objects per schedule; trace build with own __tsan_* hooks for footprint race check and frame-exact lifetime check"},
     {"name": "E6 runner", "path": "tools/check.py", "serves_properties": [], "kind_free_text": "builds drivers from /repo, runs slices on all cores, merges, applies known_findings.json, writes evidence and replays"},
 ]
 NOTES = "See DESIGN.md. All checks rebuild their drivers from /repo/src on every run; scratch output only under /verif/build."
@@ -19,5 +21,11 @@ CLAIMED = {
     "C16": _tree("For every enumerated tree, every index from -2 to upper bound + 2 at every level is looked up through all four lookup entry points and compared with the set of existing cells.", "DESIGN.md section 5 C16"),
 }
 
+CLAIMED["C03"] = {"engine": "E3 schedule explorer",
+    "text": "For small driver trees the complete reachable state space (tasks created, set executed) of the task graph the real OpenMP executor submits is explored, every transition executed on the real code; confluence at every state, bit-identical equality with the sequential executor, per-call predicates; the trace build adds a happens-before race check on the explicit DAG from byte-exact footprints and a frame-exact lifetime check. Mid-size trees under five named extreme schedules and W in {1,2,3,16}.",
+    "design_ref": "DESIGN.md section 3 E3, section 5 C03",
+    "note": "trusted: mock runtime's dependency semantics, gcc's GOMP lowering, tasks atomic (overlap covered by footprint analysis); Specx/StarPU executors only through API-compatible mocks (real runtimes not installed)",
+    "technique": "stateless model checking of the implementation: exhaustive exploration of schedule states (tasks created, tasks executed) under a controlled mock task runtime, with state cache; deviation-bounded beyond"}
+
 _pending = "check not built yet in this round (planned, see DESIGN.md section 11); not claimed until it runs end to end"
-NOT_APPLICABLE = {p: _pending for p in ["C03", "C04", "C05", "C09", "C10", "C11", "C12", "C13", "C14", "C15", "C17", "C18", "C19", "C20"]}
+NOT_APPLICABLE = {p: _pending for p in ["C04", "C05", "C09", "C10", "C11", "C12", "C13", "C14", "C15", "C17", "C18", "C19", "C20"]}
